@@ -173,7 +173,48 @@ def c18_2(ctx):
     ctx.ok("cache-owner", sample={"rule": "only parseable_str methods write parseable_str._cache", "write_sites_seen": n_sites}, nontrivial=False)
     # cache keys identify the decoding function uniquely (one string object is shared between networks)
     keys = {}
+    param_keyed = 0
     for m, n, key, fn in cache_calls(ctx):
+        # a key that is a PARAMETER of the function around the call (parse_b58_hashed(s, hash_f, cache_key)): each caller that
+        # passes a literal for it names one decoder -- the one its other arguments select
+        holder = None
+        if isinstance(key, ast.Name):
+            for q_, g_ in ctx.p.functions.items():
+                if g_.module is m and isinstance(g_.node, (ast.FunctionDef, ast.AsyncFunctionDef)) and g_.parent is None and key.id in g_.params() and any(x is n for x in ast.walk(g_.node)):
+                    holder = g_
+        if holder is not None:
+            idx = holder.params().index(key.id)
+            found = 0
+            for m2 in ctx.p.modules.values():
+                for c in ast.walk(m2.tree):
+                    if isinstance(c, ast.Call) and isinstance(c.func, (ast.Name, ast.Attribute)) and (c.func.id if isinstance(c.func, ast.Name) else c.func.attr) == holder.name:
+                        bound = dict(zip(holder.params(), c.args))
+                        bound.update({k.arg: k.value for k in c.keywords if k.arg})
+                        kv = bound.get(key.id)
+                        if isinstance(kv, ast.Constant) and isinstance(kv.value, str):
+                            others = tuple(norm(v_) for p_, v_ in sorted(bound.items()) if p_ != key.id and p_ != holder.params()[0])
+                            keys.setdefault(kv.value, set()).add(("%s%s" % (holder.name, list(others)), "%s:%d" % (m2.relpath, c.lineno)))
+                            found += 1
+            param_keyed += 1
+            if found:
+                continue
+        if isinstance(key, ast.Constant) and isinstance(key.value, str) and isinstance(fn, (ast.Lambda, ast.Call)):
+            # one LITERAL key for a decoder that is chosen by a parameter of the function around the call (lambda _: b58_hashed(_,
+            # hash_f) under the key "b58_hashed"): the string object is shared between networks, so the verdict computed with one
+            # network's hash function is found under the same key by a network that uses another
+            encl = None
+            for q_, g_ in ctx.p.functions.items():
+                if g_.module is m and isinstance(g_.node, (ast.FunctionDef, ast.AsyncFunctionDef)) and g_.parent is None and any(x is n for x in ast.walk(g_.node)):
+                    encl = g_
+            if encl is not None:
+                own = set()
+                if isinstance(fn, ast.Lambda):
+                    own = {a.arg for a in fn.args.args}
+                free = sorted({x.id for x in ast.walk(fn) if isinstance(x, ast.Name) and x.id in encl.params()[1:] and x.id not in own})
+                if free:
+                    ctx.bad("cache-key-names-the-decoder:%s" % key.value, "%s:%d" % (m.relpath, n.lineno),
+                            "%s caches under the one literal key %r a decoder that depends on its parameter `%s`: the parseable_str (and its cache) is shared between networks, so what was decided with one value of `%s` (one network's checksum function) "
+                            "is served to a caller that passes another" % (encl.qualname.split(".", 1)[-1], key.value, free[0], free[0]), sample={"key": key.value, "decoder_depends_on": free})
         if isinstance(key, ast.Constant) and isinstance(key.value, str):
             keys.setdefault(key.value, set()).add((norm(fn) if not isinstance(fn, ast.Lambda) else "lambda@%s" % m.name, "%s:%d" % (m.relpath, n.lineno)))
         elif m.relpath.startswith("pycoin/networks/") or m.relpath.startswith("pycoin/coins/"):
@@ -185,7 +226,10 @@ def c18_2(ctx):
         ctx.check(len(names) == 1, "cache-key-unique:%s" % k, sorted(fs)[0][1],
                   "cache key %r is used for different decoders %s: a string parsed on one network poisons the result on another (the parseable_str object is shared)" % (k, sorted(names)),
                   sample={"key": k, "decoders": sorted(names)})
-    ctx.check(len(keys) >= 5, "cache-keys-found", PSTR + ":1", "only %d cache keys found" % len(keys))
+    if len(keys) >= 5:
+        ctx.ok("cache-keys-found", sample={"keys": len(keys)})
+    else:
+        ctx.undecided("cache-keys-found", PSTR + ":1", "only %d literal cache keys found (%d call(s) take the key from a parameter): the keys this rule cannot read are not judged" % (len(keys), param_keyed))
 
 
 # ------------------------------------------------------------------ C18.3
